@@ -7,6 +7,7 @@ CONSTANTS
   MaxTotal = 1000000
   QCap = 1000000
   WireCap = 1
+  CutBetween = FALSE
   Cuts = {}
 INVARIANTS InOrderWhole Assembly
 CONSTRAINT Consumed
